@@ -189,10 +189,13 @@ func c12() int {
 			}
 		}
 	})
+	// (iv) nothing left behind in the engine's compilation cache: near-duplicate texts in every order
+	nearRuns := nearDuplicateCache(rep, "residue-")
 	cov := st.coverage(sp, "(i) every byte string of length <= "+fmt.Sprint(byteLen)+" over a 27-byte alphabet; (ii) every token string of length <= "+fmt.Sprint(tokLen)+" over "+fmt.Sprint(len(c12Tokens))+" lexer-token representatives; (iii) "+nsRule+"; plus the enumerated family of meaningless-but-grammatical programs x valid/missing/extraneous/ill-typed variable maps x store contents. Every (program,input) is run twice (forward, and in reverse order on a fresh compile) and the two observations compared. Non-trivial = got past compilation")
 	cov["byte_strings"] = nBytes
 	cov["token_strings"] = nToks
 	cov["odd_programs"] = len(odd)
+	cov["near_duplicate_cache_runs"] = nearRuns
 	rep.Assume = []string{"termination is checked by a 180 s per-case watchdog (no case comes near it); the VM has no backward jumps"}
 	return rep.Finish(cov)
 }
